@@ -80,15 +80,16 @@ var commentPool = []string{
 }
 
 type g struct {
-	r        *driver.Rng
-	opt      Options
-	used     map[string]bool // canonical keys of every identifier handed out
-	cnt      int
-	meta     *Meta
-	cfg      *desc.Config
-	enums    []string
-	hookBy   map[string]bool
-	fieldNum int32
+	r                    *driver.Rng
+	opt                  Options
+	used                 map[string]bool // canonical keys of every identifier handed out
+	cnt                  int
+	meta                 *Meta
+	cfg                  *desc.Config
+	enums                []string
+	hookBy               map[string]bool
+	fieldNum             int32
+	forceEmpty, hadEmpty bool
 }
 
 func canon(s string) string { return strings.ToLower(strings.ReplaceAll(s, "_", "")) }
@@ -384,8 +385,9 @@ func (x *g) genMessage(name string, lower []msgInfo, embeddables []msgInfo, leve
 	m := desc.Message{Name: name, Comment: x.comment(), Oneofs: []string{}, Fields: []desc.Field{}}
 	info := msgInfo{name: name}
 	x.fieldNum = 0
-	if level == 0 && x.r.P(12) {
+	if level == 0 && (x.r.P(12) || (x.forceEmpty && !x.hadEmpty)) {
 		info.empty = true
+		x.hadEmpty = true
 		return m, info
 	}
 	n := 1 + x.r.Intn(7)
@@ -419,6 +421,14 @@ func (x *g) genMessage(name string, lower []msgInfo, embeddables []msgInfo, leve
 		m.Oneofs = append(m.Oneofs, x.fieldName())
 		nb := 1 + x.r.Intn(3)
 		for b := 0; b < nb; b++ {
+			// an empty message as a branch (the oneof-with-empty-message shape of test.proto) now and then
+			if empties := emptyOnly(lower); len(empties) > 0 && x.r.P(30) {
+				if f, ok := x.msgField(empties, gi); ok {
+					f.Nullable = ""
+					m.Fields = append(m.Fields, f)
+					continue
+				}
+			}
 			if len(lower) > 0 && x.r.P(40) {
 				if f, ok := x.msgField(lower, gi); ok {
 					f.Nullable = ""
@@ -456,6 +466,7 @@ func (x *g) genMessage(name string, lower []msgInfo, embeddables []msgInfo, leve
 // GenCase draws a request and configuration.
 func GenCase(r *driver.Rng, opt Options) (*desc.Case, *Meta) {
 	x := &g{r: r, opt: opt, used: map[string]bool{}, meta: &Meta{}, cfg: &desc.Config{}, hookBy: map[string]bool{}}
+	x.forceEmpty = r.P(60)
 	pkg := opt.StructPkgName
 	if pkg == "" {
 		pkg = "tpkg"
@@ -587,6 +598,16 @@ func OneofGroups(c *desc.Case, roots []string) [][]string {
 		}
 	}
 	return out
+}
+
+func emptyOnly(l []msgInfo) []msgInfo {
+	var r []msgInfo
+	for _, m := range l {
+		if m.empty {
+			r = append(r, m)
+		}
+	}
+	return r
 }
 
 func (x *g) nonEmptyOnly(l []msgInfo) []msgInfo {
@@ -746,9 +767,6 @@ func (x *g) fieldOptions(c *desc.Case, cfg *desc.Config) {
 			cfg.PlanModifiers = append(cfg.PlanModifiers, desc.KVs{K: key(o), V: l})
 		}
 	}
-	cfg.NameOverrides = dedupKV(cfg.NameOverrides)
-	cfg.Validators = dedupKVs(cfg.Validators)
-	cfg.PlanModifiers = dedupKVs(cfg.PlanModifiers)
 	// custom_types entries for plain string fields drawn by customField (no gogo option): by full path
 	if x.opt.Customs {
 		for _, o := range occ {
@@ -760,6 +778,44 @@ func (x *g) fieldOptions(c *desc.Case, cfg *desc.Config) {
 		}
 		cfg.CustomTypes = dedupKV(cfg.CustomTypes)
 	}
+	// custom-type fields take every flag / list as other fields do (C10 / C17): make the combination frequent
+	isCustomOcc := func(o occurrence) bool {
+		if o.f.CustomType != "" {
+			return true
+		}
+		for _, kv := range cfg.CustomTypes {
+			if kv.K == o.path {
+				return true
+			}
+		}
+		return false
+	}
+	for _, o := range occ {
+		if !isCustomOcc(o) {
+			continue
+		}
+		if x.r.P(50) {
+			cfg.ComputedFields = append(cfg.ComputedFields, key(o))
+		}
+		if x.r.P(35) {
+			cfg.PlanModifiers = append(cfg.PlanModifiers, desc.KVs{K: key(o), V: []string{planModPool[1]}})
+		}
+		if x.r.P(35) {
+			cfg.Validators = append(cfg.Validators, desc.KVs{K: key(o), V: []string{validatorPool[0]}})
+		}
+		if x.r.P(30) {
+			cfg.SensitiveFields = append(cfg.SensitiveFields, key(o))
+		}
+		if x.r.P(30) {
+			cfg.RequiredFields = append(cfg.RequiredFields, key(o))
+		}
+	}
+	cfg.ComputedFields = dedupStr(cfg.ComputedFields)
+	cfg.SensitiveFields = dedupStr(cfg.SensitiveFields)
+	cfg.RequiredFields = dedupStr(cfg.RequiredFields)
+	cfg.NameOverrides = dedupKV(cfg.NameOverrides)
+	cfg.Validators = dedupKVs(cfg.Validators)
+	cfg.PlanModifiers = dedupKVs(cfg.PlanModifiers)
 	// injected fields: at roots and at some nested paths
 	injNames := map[string]bool{}
 	addInj := func(path string) {
@@ -825,6 +881,18 @@ func dedupKVs(l []desc.KVs) []desc.KVs {
 	for _, e := range l {
 		if !seen[e.K] {
 			seen[e.K] = true
+			r = append(r, e)
+		}
+	}
+	return r
+}
+
+func dedupStr(l []string) []string {
+	seen := map[string]bool{}
+	var r []string
+	for _, e := range l {
+		if !seen[e] {
+			seen[e] = true
 			r = append(r, e)
 		}
 	}
